@@ -264,7 +264,7 @@ def translate_item(item):
                     status = 'violation'
         # what a group captures: for `literal* GROUP literal*` (one top-level, non-negated group) the captured text is exactly what stands
         # between the literal prefix and suffix - also when the group matches empty (the group then captures '' and is not None)
-        if len(pos) == 1 and not neg and mode_from_flags(flags, kind == 'glob').ext and not is_bytes:
+        if len(pos) == 1 and not neg and mode_from_flags(flags, kind == 'glob').ext and not is_bytes and not flags & W.MATCHBASE:      # (no implicit prefix in front of the literal prefix)
             tl = [t for t in els if t[0] == 'ext']
             if len(tl) == 1 and tl[0][1] != '!' and count_ext_groups(els) == 1 and all(t[0] in ('lit', 'esc', 'ext') for t in els) and not any(t[0] != 'ext' and t[1] == '/' for t in els):
                 k = [i for i, t in enumerate(els) if t[0] == 'ext'][0]
